@@ -54,3 +54,40 @@ def build_readout(ident: bytes, lines: list[bytes], checksum: str = "good", blan
     else:
         tail = checksum.encode("latin-1")
     return body + tail + b"\r\n"
+
+
+_TABLE = None
+
+
+def _crc_table():
+    global _TABLE
+    if _TABLE is None:
+        t = []
+        for b in range(256):
+            r = b
+            for _ in range(8):
+                r = (r >> 1) ^ 0xA001 if r & 1 else r >> 1
+            t.append(r)
+        _TABLE = t
+    return _TABLE
+
+
+def find_counter_for_crc(prefix: bytes, suffix: bytes, want: int = 0, digits: int = 8):
+    """Search a decimal counter (as ASCII digits) such that CRC16/ARC(prefix + counter + suffix) == want.
+    Table-driven for speed; the caller confirms the result with the bit-serial reference."""
+    t = _crc_table()
+    start = 0
+    for b in prefix:
+        start = (start >> 8) ^ t[(start ^ b) & 0xFF]
+    for n in range(10 ** digits):
+        text = b"%0*d" % (digits, n)
+        r = start
+        for b in text:
+            r = (r >> 8) ^ t[(r ^ b) & 0xFF]
+        for b in suffix:
+            r = (r >> 8) ^ t[(r ^ b) & 0xFF]
+        if r == want:
+            return text
+        if n > 400000:
+            return None
+    return None
